@@ -140,6 +140,9 @@ func runCheck(opts options, id string) int {
 			infraFail("unknown property %q", pid)
 		}
 		pr := def.run(ctx)
+		if opts.tier == "thorough" {
+			pr.Rules = append(pr.Rules, ctx.rule("R0t", ruleThorough))
+		}
 		pr.ID = pid
 		pr.Tier = opts.tier
 		pr.StartedAt = start
